@@ -36,7 +36,7 @@ Tiles_C16(r) ==
 \* ---------------- C08 ----------------
 Located(in, e) == /\ e.lines # <<>>
                   /\ \A i \in DOMAIN e.lines : e.lines[i] >= 1 /\ e.lines[i] <= NLines(in)
-                  /\ \A i \in DOMAIN e.quotes : e.quotes[i]
+                  /\ \A i \in DOMAIN e.quotes : e.quotes[i]                  \* ... and quotes that line
 Total_C08(r) ==
   /\ r.outcome = "ok"                                          \* no panic, hang or crash
   /\ r.same                                                    \* the same input gives the same result
